@@ -386,8 +386,56 @@ func runC10(c *core.Ctx) *core.Outcome {
 			}
 			trace = append(trace, fmt.Sprintf("h%d.Dump(%q) [type=%s sid=%q lang=%q]", hi, dumpPfx, typeNames[rc.pfx], rc.sid, rc.lang))
 			if langed(rc.pfx) {
-				// listing of translated entries is not specified (one key, several entries): not compared
-				o.Probes["dump_langed_skipped"]++
+				// how translated entries appear in a listing is not specified (one key, several entries) and is
+				// not compared. What is: a key that has a default-language entry is a stored key with that
+				// prefix, so it is listed - whatever else the directory holds next to it - and with the value
+				// a read in the same context returns
+				if sessioned(rc.pfx) && rc.sid == "" {
+					continue
+				}
+				for _, m := range meds {
+					if m.kind != world.BackFs && m.kind != world.BackFsBin {
+						continue
+					}
+					got := map[string][]byte{}
+					h := m.handles[hidx(m)]
+					pm, pat := world.Guard(func() {
+						d, err := h.Dump(context.Background(), []byte(dumpPfx))
+						if err != nil {
+							return
+						}
+						for n := 0; n < 1000; n++ {
+							k, v := d.Next(context.Background())
+							if k == nil {
+								break
+							}
+							got[string(k)] = v
+						}
+						d.Close()
+					})
+					if pm != "" {
+						return fail("panic:"+pat, i, "%s on %s panicked: %s", trace[len(trace)-1], m.name, pm)
+					}
+					for _, k := range c10Keys {
+						if !strings.HasPrefix(k, dumpPfx) {
+							continue
+						}
+						if _, ok := ref.m[refKey(rc.pfx, rc.sid, k, "")]; !ok {
+							continue
+						}
+						if m.tooLong[refKey(rc.pfx, rc.sid, k, "")] || (k == c10LongKey && m.kind == world.BackFsBin) {
+							continue
+						}
+						v, ok := got[k]
+						if !ok {
+							return fail("dump-missing", i, "%s on %s did not list key %q, which has a default-language entry (listed %v)", trace[len(trace)-1], m.name, k, sortedKeys(got))
+						}
+						if want, wok := ref.get(rc, "", k); wok && !bytes.Equal(v, want) {
+							return fail("dump-wrong-value", i, "%s on %s listed key %q with value %s, a read in the same context returns %s", trace[len(trace)-1], m.name, k, shortVal(v), shortVal(want))
+						}
+					}
+					o.Probes["dump_of_translated_type_compared_for_default_entries"]++
+				}
 				continue
 			}
 			if sessioned(rc.pfx) && rc.sid == "" {
